@@ -21,6 +21,11 @@ pub enum Fee {
     OwnContingent { amount: String, contingent: String },
     /// no fee lock at all (the transaction must be rejected)
     None,
+    /// lock_fee on the dedicated payer's account (a party that does nothing but pay fees, so
+    /// that the change of its XRD vault is exactly what was paid)
+    Payer { amount: String },
+    /// normal lock on the dedicated payer, contingent lock on the actor's own account
+    PayerContingent { amount: String, contingent: String },
 }
 
 #[derive(Clone, Debug, Serialize, Deserialize, PartialEq)]
@@ -35,6 +40,9 @@ pub enum Fault {
     /// C02: enumerate the injected-error position over the costing calls of this transaction
     /// (no commit), then execute it normally
     Sweep,
+    /// C06: learn the total cost T with a generous lock, then probe locks of exactly T and
+    /// T -/+ a few attos (no commit), then execute normally
+    FeeProbe,
 }
 
 #[derive(Clone, Debug, Serialize, Deserialize, PartialEq)]
@@ -166,11 +174,14 @@ pub struct View {
     pub clock_ms: i64,
 }
 
+/// Parties the generator uses as actors / counterparties.
 pub const N_PARTIES: usize = 4;
+/// Index of the dedicated fee payer (never an actor or counterparty).
+pub const PAYER: usize = N_PARTIES;
 
 impl View {
     pub fn new() -> Self {
-        let parties = (0..N_PARTIES)
+        let parties = (0..N_PARTIES + 1)
             .map(|i| {
                 let key = Secp256k1PrivateKey::from_u64(7000 + i as u64).unwrap();
                 let pk = key.public_key();
@@ -251,6 +262,14 @@ pub fn build(step: &LStep, view: &View, node: &Node) -> Built {
             _ => return Built::Skip,
         },
         Fee::None => b,
+        Fee::Payer { amount } => match dec(amount) {
+            Some(a) => b.lock_fee(view.parties[PAYER].account, a),
+            None => return Built::Skip,
+        },
+        Fee::PayerContingent { amount, contingent } => match (dec(amount), dec(contingent)) {
+            (Some(a), Some(c)) => b.lock_contingent_fee(acct, c).lock_fee(view.parties[PAYER].account, a),
+            _ => return Built::Skip,
+        },
     };
     let fres = |i: &u8| view.fres.get(*i as usize);
     let nres = |i: &u8| view.nres.get(*i as usize);
@@ -604,6 +623,9 @@ pub struct Weights {
     /// fungible vaults; runs that use it as a second opinion create no freezable resources.
     #[serde(default)]
     pub allow_freezable: bool,
+    /// C06: most fees are locked on the dedicated payer
+    #[serde(default)]
+    pub payer_fees: bool,
 }
 
 fn amount(rng: &mut Rng, divisibility: u8) -> String {
@@ -645,7 +667,7 @@ fn amount_of(rng: &mut Rng, bal: Decimal, divisibility: u8) -> String {
 }
 
 pub fn gen_step(rng: &mut Rng, view: &View, node: &Node, w: &Weights, fault_permille: u32) -> LStep {
-    let np = view.parties.len() as u64;
+    let np = N_PARTIES as u64;
     let mut actor = rng.below(np) as u8;
     let other = rng.below(np) as u8;
     let wild = rng.chance(1, 10);
@@ -838,7 +860,16 @@ pub fn gen_step(rng: &mut Rng, view: &View, node: &Node, w: &Weights, fault_perm
         }
         _ => Body::Restart,
     };
-    let fee = match rng.below(10) {
+    let fee = if w.payer_fees && rng.chance(4, 5) {
+        // C06: dedicated payer with locks below, around and above the eventual need
+        let amt = rng.pick(&["100", "10", "1", "0.6", "0.35", "0.2", "0.1", "0.05", "0.000001", "0", "5000"]).to_string();
+        if rng.chance(1, 3) {
+            Fee::PayerContingent { amount: amt, contingent: rng.pick(&["0", "0.1", "1", "50"]).to_string() }
+        } else {
+            Fee::Payer { amount: amt }
+        }
+    } else {
+        match rng.below(10) {
         0..=5 => Fee::Faucet,
         6..=7 => Fee::Own { amount: rng.pick(&["10", "100", "0.5", "5000"]).to_string() },
         8 => Fee::OwnContingent { amount: "10".into(), contingent: rng.pick(&["1", "10", "100"]).to_string() },
@@ -848,6 +879,7 @@ pub fn gen_step(rng: &mut Rng, view: &View, node: &Node, w: &Weights, fault_perm
             } else {
                 Fee::Faucet
             }
+        }
         }
     };
     let fault = if rng.below(1000) < fault_permille as u64 {
@@ -859,6 +891,19 @@ pub fn gen_step(rng: &mut Rng, view: &View, node: &Node, w: &Weights, fault_perm
     } else {
         Fault::None
     };
-    let tip_bp = *rng.pick(&[0u32, 0, 0, 1, 100, 555, 10_000, 65_535 * 100]);
+    let tip_bp = if w.payer_fees {
+        // whole ranges of both specifiers: Percentage(u16) and BasisPoints(u32)
+        match rng.below(8) {
+            0..=1 => 0,
+            2 => rng.range(1, 10_000) as u32,
+            3 => (rng.range(1, 65_535) * 100) as u32,
+            4 => rng.range(1, u32::MAX as u64) as u32,
+            5 => u32::MAX,
+            6 => 65_535 * 100,
+            _ => *rng.pick(&[1u32, 99, 100, 101, 9_999, 10_001]),
+        }
+    } else {
+        *rng.pick(&[0u32, 0, 0, 1, 100, 555, 10_000, 65_535 * 100])
+    };
     LStep { actor, body, fee, fault, tip_bp }
 }
